@@ -9,6 +9,9 @@ fn main() -> Result<(), Box<dyn std::error::Error>> {
             &["proto/googleapis"],
         )?;
 
+    // Verification hooks are guarded by `--cfg deltio_verif`.
+    println!("cargo::rustc-check-cfg=cfg(deltio_verif)");
+
     // If we set CARGO_PKG_VERSION this way, then it will override the default value, which is
     // taken from the `version` in Cargo.toml.
     if let Ok(val) = std::env::var("DELTIO_RELEASE_VERSION") {
